@@ -611,9 +611,9 @@ theorem abortedOnce {v : View} (h : RunAny cfg tl β v ∨ Done cfg tl β .abort
       · exact Or.inl h'
       · exact absurd h' hs
 
-/-- the retry state has recorded the failure the monitor heard about: class `k`, `cause`, exception `exc` -/
-def Failed (k : EClass) (cause : Cause) (exc : Option Exn) (v : View) : Prop :=
-  v.esc = true ∨ (Sync v ∧ v.lastClass = some k ∧ v.lastCause = some cause ∧ v.lastExc = exc)
+/-- the retry state has recorded the failure the monitor heard about: `cause`, exception `exc` -/
+def Failed (cause : Cause) (exc : Option Exn) (v : View) : Prop :=
+  v.esc = true ∨ (Sync v ∧ v.lastCause = some cause ∧ v.lastExc = exc)
 
 theorem describes_fail (s : St) (ev : Event) (a sl : Nat) (k : Option EClass) (exc : Option Exn) (st : StopReason)
     (cause : Option Cause) (h1 : ev ≠ .success) (h2 : ev ≠ .aborted) (h3 : ev ≠ .retry)
@@ -626,25 +626,28 @@ theorem describes_retry (s : St) (a sl : Nat) (k : Option EClass) (exc : Option 
     describes cfg s (.retry, a, sl, tagsOf cfg k exc none cause) = true := by
   simp_all [describes, tagsOf]
 
-theorem Failed.push {k : EClass} {cause : Cause} {exc : Option Exn} {v : View} (h : Failed k cause exc v)
-    (x : EvRec) (s' : Option StopReason) : Failed k cause exc (C14.push cfg tl x { v with stop := s' }) := by
-  rcases h with h | ⟨sy, h1, h2, h3⟩
+theorem Failed.push {cause : Cause} {exc : Option Exn} {v : View} (h : Failed cause exc v)
+    (x : EvRec) (s' : Option StopReason) : Failed cause exc (C14.push cfg tl x { v with stop := s' }) := by
+  rcases h with h | ⟨sy, h2, h3⟩
   · exact Or.inl h
-  · exact Or.inr ⟨⟨sy.klass, sy.cause, sy.err⟩, h1, h2, h3⟩
+  · exact Or.inr ⟨⟨sy.klass, sy.cause, sy.err⟩, h2, h3⟩
 
-theorem Failed.push' {k : EClass} {cause : Cause} {exc : Option Exn} {v : View} (h : Failed k cause exc v)
-    (x : EvRec) : Failed k cause exc (C14.push cfg tl x v) := by
-  rcases h with h | ⟨sy, h1, h2, h3⟩
+theorem Failed.push' {cause : Cause} {exc : Option Exn} {v : View} (h : Failed cause exc v)
+    (x : EvRec) : Failed cause exc (C14.push cfg tl x v) := by
+  rcases h with h | ⟨sy, h2, h3⟩
   · exact Or.inl h
-  · exact Or.inr ⟨⟨sy.klass, sy.cause, sy.err⟩, h1, h2, h3⟩
+  · exact Or.inr ⟨⟨sy.klass, sy.cause, sy.err⟩, h2, h3⟩
 
 /-- a terminal failure event built from the retry state's record -/
 theorem Running.fail {n : Nat} {v : View} {k : EClass} {cause : Cause} {exc : Option Exn}
-    (h : Running cfg tl β n v) (hf : Failed k cause exc v) (ev : Event) (a sl : Nat) (st : StopReason)
+    (h : Running cfg tl β n v) (hf : Failed cause exc v) (hk : v.esc = true ∨ v.lastClass = some k)
+    (ev : Event) (a sl : Nat) (st : StopReason)
     (h1 : ev ≠ .success) (h2 : ev ≠ .aborted) (h3 : ev ≠ .retry) :
     Done cfg tl β .failure
       (push cfg tl (ev, a, sl, tagsOf cfg (some k) exc (some st) (some cause)) { v with stop := some st }) := by
-  rcases hf with hf | ⟨sy, hk, hc, he⟩
+  rcases hk with hk | hk
+  · exact Or.inl hk
+  rcases hf with hf | ⟨sy, hc, he⟩
   · exact Or.inl hf
   · refine h.terminal _ _ _ h3 (describes_fail _ _ _ _ _ _ _ _ h1 h2 h3 ?_ ?_ ?_) ?_
     · rw [sy.klass, hk]
@@ -653,10 +656,12 @@ theorem Running.fail {n : Nat} {v : View} {k : EClass} {cause : Cause} {exc : Op
     · simp [TermRel, tagsOf, h1, hk, hc, he]
 
 theorem Running.retryEv {n : Nat} {v : View} {k : EClass} {cause : Cause} {exc : Option Exn}
-    (h : Running cfg tl β n v) (hf : Failed k cause exc v) (sl : Nat) :
+    (h : Running cfg tl β n v) (hf : Failed cause exc v) (hk : v.esc = true ∨ v.lastClass = some k) (sl : Nat) :
     Running cfg tl β (n + 1)
       (push cfg tl (.retry, n + 1, sl, tagsOf cfg (some k) exc none (some cause)) v) := by
-  rcases hf with hf | ⟨sy, hk, hc, he⟩
+  rcases hk with hk | hk
+  · exact Or.inl hk
+  rcases hf with hf | ⟨sy, hc, he⟩
   · exact Or.inl hf
   · refine h.retry _ rfl rfl (describes_retry _ _ _ _ _ _ ?_ ?_ ?_)
     · rw [sy.klass, hk]
@@ -684,10 +689,10 @@ theorem Running.recorded {n : Nat} {v : View} (h : Running cfg tl β n v) (k : E
     · cases hx
 
 theorem Failed.of_heard {v : View} {k : EClass} {cause : Cause} {exc : Option Exn} (h : Heard k cause exc v)
-    (hr : cause = .result → exc = none) : Failed k cause exc (v.recorded k cause exc) := by
+    (hr : cause = .result → exc = none) : Failed cause exc (v.recorded k cause exc) := by
   rcases h with h | ⟨h1, h2, h3⟩
   · exact Or.inl h
-  · refine Or.inr ⟨⟨h1, h2, ?_⟩, rfl, rfl, ?_⟩
+  · refine Or.inr ⟨⟨h1, h2, ?_⟩, rfl, ?_⟩
     · cases cause <;> simp_all [View.recorded]
     · cases cause <;> simp_all [View.recorded]
 
@@ -755,54 +760,56 @@ theorem emitAbortedOnce_spec (v : View) (h : RunAny cfg tl β v ∨ Done cfg tl 
   · exact (h3 h a).2 (by simp_all [view])
 
 /-- what `_handle_failure` leaves behind -/
-structure FailPost (n : Nat) (k : EClass) (cause : Cause) (exc : Option Exn) (d : Decision) (v : View) : Prop where
-  failed : Failed k cause exc v
+structure FailPost (n : Nat) (cause : Cause) (exc : Option Exn) (d : Decision) (v : View) : Prop where
+  failed : Failed cause exc v
   done : d = .raise → Done cfg tl β .failure v
   running : d ≠ .raise → Running cfg tl β (n + 1) v
 
-abbrev failPost (n : Nat) (k : EClass) (cause : Cause) (exc : Option Exn) :
+abbrev failPost (n : Nat) (cause : Cause) (exc : Option Exn) :
     PostCond Decision (.except Exn (.arg World .pure)) :=
-  post⟨fun d w => ⌜FailPost cfg tl β n k cause exc d (view cfg w)⌝,
+  post⟨fun d w => ⌜FailPost cfg tl β n cause exc d (view cfg w)⌝,
        fun e w => ⌜e.isException = true → MidX cfg tl β e (view cfg w)⌝⟩
 
 theorem stopWith_spec (n : Nat) (v : View) (k : EClass) (cause : Cause) (exc : Option Exn)
-    (h : Running cfg tl β n v) (hf : Failed k cause exc v) (s : StopReason) (ev : Event) (a : Nat)
+    (h : Running cfg tl β n v) (hf : Failed cause exc v) (hk : v.esc = true ∨ v.lastClass = some k)
+    (s : StopReason) (ev : Event) (a : Nat)
     (h1 : ev ≠ .success) (h2 : ev ≠ .aborted) (h3 : ev ≠ .retry) (hb : isBreakerEvent ev = false) :
-    ⦃fun w => ⌜view cfg w = v⌝⦄ stopWith cfg tl s ev a k exc cause ⦃failPost cfg tl β n k cause exc⦄ := by
+    ⦃fun w => ⌜view cfg w = v⌝⦄ stopWith cfg tl s ev a k exc cause ⦃failPost cfg tl β n cause exc⦄ := by
   have e1 := setStop_spec cfg
   have e2 := fun v => emit_spec cfg v tl ev a 0 (some k) exc (some s) (some cause) none hb
   mvcgen [stopWith, e1, e2]
   vc_close
   all_goals (try simp_all +zetaDelta)
-  · exact ⟨hf.push _ _, fun _ => h.fail hf ev a 0 s h1 h2 h3, fun hd => absurd rfl hd⟩
+  · exact ⟨hf.push _ _, fun _ => h.fail hf hk ev a 0 s h1 h2 h3, fun hd => absurd rfl hd⟩
 
 theorem grantRetry_spec (n : Nat) (v : View) (c : Classification) (cause : Cause) (exc : Option Exn)
-    (h : Running cfg tl β n v) (hf : Failed c.klass cause exc v) (key : SKey) (kind : SKind) (rem : Nat) :
+    (h : Running cfg tl β n v) (hf : Failed cause exc v) (hk : v.esc = true ∨ v.lastClass = some c.klass)
+    (key : SKey) (kind : SKind) (rem : Nat) :
     ⦃fun w => ⌜view cfg w = v⌝⦄ grantRetry cfg tl c (n + 1) cause exc key kind rem
-    ⦃failPost cfg tl β n c.klass cause exc⦄ := by
+    ⦃failPost cfg tl β n cause exc⦄ := by
   have e1 := callStrategy_spec cfg
   have e2 := budgetConsume_spec cfg
   have e3 := fun v sl => emit_spec cfg v tl .retry (n + 1) sl (some c.klass) exc none (some cause) (some c) rfl
-  have e4 := fun v (h : Running cfg tl β n v) (hf : Failed c.klass cause exc v) =>
-    stopWith_spec cfg tl β n v c.klass cause exc h hf .budgetExhausted .budgetExhausted (n + 1)
+  have e4 := fun v (h : Running cfg tl β n v) (hf : Failed cause exc v) hk =>
+    stopWith_spec cfg tl β n v c.klass cause exc h hf hk .budgetExhausted .budgetExhausted (n + 1)
       (by simp) (by simp) (by simp) rfl
   mvcgen [grantRetry, getRS, modifyRS, e1, e2, e3, e4]
   vc_close
   all_goals (try simp_all +zetaDelta)
-  · exact ⟨hf.push' _, (fun hd => nomatch hd), fun _ => h.retryEv hf _⟩
+  · exact ⟨hf.push' _, (fun hd => nomatch hd), fun _ => h.retryEv hf hk _⟩
   all_goals (first
     | exact MidX.raised h
     | skip)
 
 theorem handleFailure2_spec (n : Nat) (v : View) (c : Classification) (cause : Cause) (exc : Option Exn)
-    (h : Running cfg tl β n v) (hf : Failed c.klass cause exc v) :
+    (h : Running cfg tl β n v) (hf : Failed cause exc v) (hk : v.esc = true ∨ v.lastClass = some c.klass) :
     ⦃fun w => ⌜view cfg w = v⌝⦄ handleFailure2 cfg tl c (n + 1) cause exc
-    ⦃failPost cfg tl β n c.klass cause exc⦄ := by
+    ⦃failPost cfg tl β n cause exc⦄ := by
   have e1 := stratRecordFailure_spec cfg
-  have e2 := fun v (h : Running cfg tl β n v) (hf : Failed c.klass cause exc v) =>
-    grantRetry_spec cfg tl β n v c cause exc h hf
-  have e4 := fun v (h : Running cfg tl β n v) (hf : Failed c.klass cause exc v) s ev h1 h2 h3 hb =>
-    stopWith_spec cfg tl β n v c.klass cause exc h hf s ev (n + 1) h1 h2 h3 hb
+  have e2 := fun v (h : Running cfg tl β n v) (hf : Failed cause exc v) hk =>
+    grantRetry_spec cfg tl β n v c cause exc h hf hk
+  have e4 := fun v (h : Running cfg tl β n v) (hf : Failed cause exc v) hk s ev h1 h2 h3 hb =>
+    stopWith_spec cfg tl β n v c.klass cause exc h hf hk s ev (n + 1) h1 h2 h3 hb
   mvcgen [handleFailure2, elapsed, modifyRS, e1, e2, e4]
   vc_close
   all_goals (try simp_all +zetaDelta)
@@ -811,26 +818,26 @@ theorem handleFailure2_spec (n : Nat) (v : View) (c : Classification) (cause : C
     | skip)
 
 theorem handleUnknown_spec (n : Nat) (v : View) (c : Classification) (cause : Cause) (exc : Option Exn)
-    (h : Running cfg tl β n v) (hf : Failed c.klass cause exc v) :
+    (h : Running cfg tl β n v) (hf : Failed cause exc v) (hk : v.esc = true ∨ v.lastClass = some c.klass) :
     ⦃fun w => ⌜view cfg w = v⌝⦄ handleUnknown cfg tl c (n + 1) cause exc
-    ⦃failPost cfg tl β n c.klass cause exc⦄ := by
-  have e2 := fun v (h : Running cfg tl β n v) (hf : Failed c.klass cause exc v) =>
-    handleFailure2_spec cfg tl β n v c cause exc h hf
-  have e4 := fun v (h : Running cfg tl β n v) (hf : Failed c.klass cause exc v) s ev h1 h2 h3 hb =>
-    stopWith_spec cfg tl β n v c.klass cause exc h hf s ev (n + 1) h1 h2 h3 hb
+    ⦃failPost cfg tl β n cause exc⦄ := by
+  have e2 := fun v (h : Running cfg tl β n v) (hf : Failed cause exc v) hk =>
+    handleFailure2_spec cfg tl β n v c cause exc h hf hk
+  have e4 := fun v (h : Running cfg tl β n v) (hf : Failed cause exc v) hk s ev h1 h2 h3 hb =>
+    stopWith_spec cfg tl β n v c.klass cause exc h hf hk s ev (n + 1) h1 h2 h3 hb
   mvcgen [handleUnknown, getRS, modifyRS, e2, e4]
   vc_close
 
 theorem handleFailure1_spec (n : Nat) (v : View) (c : Classification) (cause : Cause) (exc : Option Exn)
-    (h : Running cfg tl β n v) (hf : Failed c.klass cause exc v) :
+    (h : Running cfg tl β n v) (hf : Failed cause exc v) (hk : v.esc = true ∨ v.lastClass = some c.klass) :
     ⦃fun w => ⌜view cfg w = v⌝⦄ handleFailure1 cfg tl c (n + 1) cause exc
-    ⦃failPost cfg tl β n c.klass cause exc⦄ := by
-  have e2 := fun v (h : Running cfg tl β n v) (hf : Failed c.klass cause exc v) =>
-    handleFailure2_spec cfg tl β n v c cause exc h hf
-  have e3 := fun v (h : Running cfg tl β n v) (hf : Failed c.klass cause exc v) =>
-    handleUnknown_spec cfg tl β n v c cause exc h hf
-  have e4 := fun v (h : Running cfg tl β n v) (hf : Failed c.klass cause exc v) s ev h1 h2 h3 hb =>
-    stopWith_spec cfg tl β n v c.klass cause exc h hf s ev (n + 1) h1 h2 h3 hb
+    ⦃failPost cfg tl β n cause exc⦄ := by
+  have e2 := fun v (h : Running cfg tl β n v) (hf : Failed cause exc v) hk =>
+    handleFailure2_spec cfg tl β n v c cause exc h hf hk
+  have e3 := fun v (h : Running cfg tl β n v) (hf : Failed cause exc v) hk =>
+    handleUnknown_spec cfg tl β n v c cause exc h hf hk
+  have e4 := fun v (h : Running cfg tl β n v) (hf : Failed cause exc v) hk s ev h1 h2 h3 hb =>
+    stopWith_spec cfg tl β n v c.klass cause exc h hf hk s ev (n + 1) h1 h2 h3 hb
   mvcgen [handleFailure1, getRS, e2, e3, e4]
   vc_close
 
@@ -844,18 +851,17 @@ theorem handleFailure_spec (n : Nat) (v : View) (c : Classification) (cause : Ca
     (r : Option Nat) (h : Running cfg tl β n v) (hh : Heard c.klass cause exc v)
     (hr : cause = .result → exc = none) (he : ∀ e, exc = some e → e.isAbort = false ∧ e.isExhausted = false) :
     ⦃fun w => ⌜view cfg w = v⌝⦄ handleFailure cfg tl c (n + 1) cause exc r
-    ⦃failPost cfg tl β n c.klass cause exc⦄ := by
+    ⦃failPost cfg tl β n cause exc⦄ := by
   have e1 := recordFailure_spec cfg
   have e2 := handleFailure1_spec cfg tl β n (v.recorded c.klass cause exc) c cause exc
-    (h.recorded _ _ _ he) (Failed.of_heard hh hr)
+    (h.recorded _ _ _ he) (Failed.of_heard hh hr) (Or.inr rfl)
   mvcgen [handleFailure, modifyRS, e1, e2]
   vc_close
 
 theorem handleException_spec (n : Nat) (v : View) (e : Exn) (h : Running cfg tl β n v)
     (hop : v.esc = true ∨ v.mon.opExn = some e) (he : e.isAbort = false ∧ e.isExhausted = false) :
     ⦃fun w => ⌜view cfg w = v⌝⦄ handleException cfg tl e (n + 1)
-    ⦃post⟨fun d w => ⌜∃ k, FailPost cfg tl β n k .exception (some e) d (view cfg w)⌝,
-          fun x w => ⌜x.isException = true → MidX cfg tl β x (view cfg w)⌝⟩⦄ := by
+    ⦃failPost cfg tl β n .exception (some e)⦄ := by
   have e1 := callClassifier_spec cfg
   have e2 := fun (c : Classification) => handleFailure_spec cfg tl β n (v.classified c.klass .exception) c .exception
     (some e) none (Running_classified.mpr h) (Heard.classified e c.klass hop) (by simp)
@@ -865,7 +871,6 @@ theorem handleException_spec (n : Nat) (v : View) (e : Exn) (h : Running cfg tl 
   all_goals (try simp_all +zetaDelta)
   all_goals (first
     | exact MidX.raised h
-    | exact ⟨_, by assumption⟩
     | skip)
 
 end specs
@@ -874,7 +879,7 @@ variable {cfg : Cfg} {tl : Bool} {β : Brk}
 
 def SyncE (v : View) : Prop := v.esc = true ∨ Sync v
 
-theorem Failed.syncE {k : EClass} {cause : Cause} {exc : Option Exn} {v : View} (h : Failed k cause exc v) :
+theorem Failed.syncE {cause : Cause} {exc : Option Exn} {v : View} (h : Failed cause exc v) :
     SyncE v := h.elim Or.inl (fun h => Or.inr h.1)
 
 /-- a terminal failure event built from the retry state's own record -/
@@ -888,12 +893,12 @@ theorem Running.failSync {n : Nat} {v : View} (h : Running cfg tl β n v) (hs : 
       (by simp [TermRel, tagsOf, h1])
 
 /-- same, when the event is built from the attempt's own parameters -/
-theorem Running.failParam {n : Nat} {v : View} {k : EClass} {cause : Cause} {exc : Option Exn}
-    (h : Running cfg tl β n v) (hf : Failed k cause exc v) (ev : Event)
+theorem Running.failParam {n : Nat} {v : View} {cause : Cause} {exc : Option Exn}
+    (h : Running cfg tl β n v) (hf : Failed cause exc v) (ev : Event)
     (a sl : Nat) (st : StopReason) (h1 : ev ≠ .success) (h2 : ev ≠ .aborted) (h3 : ev ≠ .retry) :
     Done cfg tl β .failure
       (push cfg tl (ev, a, sl, tagsOf cfg v.lastClass exc (some st) (some cause)) { v with stop := some st }) := by
-  rcases hf with hf | ⟨sy, hk, hc, he⟩
+  rcases hf with hf | ⟨sy, hc, he⟩
   · exact Or.inl hf
   · obtain ⟨mon, nz, oz, esc, rej, tl', stop, lc, lca, le⟩ := v
     simp only at hc he
@@ -913,16 +918,16 @@ macro "vc_simp" "[" ts:Lean.Parser.Tactic.simpLemma,* "]" : tactic => `(tactic| 
   (try intros) <;> (try simp only [$ts,*] at *) <;> (try subst_vars) <;>
   (try simp_all +zetaDelta [$ts,*])))
 
-def SleepPost (k : EClass) (cause : Cause) (exc : Option Exn) (v : View) (action r : SleepDecision)
+def SleepPost (cause : Cause) (exc : Option Exn) (v : View) (action r : SleepDecision)
     (v' : View) : Prop :=
-  action = r ∧ action ≠ .other ∧ (action ≠ .abort → Failed k cause exc v') ∧ (action = .sleep → v' = v)
+  action = r ∧ action ≠ .other ∧ (action ≠ .abort → Failed cause exc v') ∧ (action = .sleep → v' = v)
   ∧ (action = .defer → Done cfg tl β .failure v' ∧ v'.stop = some .scheduled)
   ∧ (action = .abort → Done cfg tl β .aborted v')
 
-theorem handleSleepDecision_spec (n : Nat) (v : View) (k : EClass) (cause : Cause) (exc : Option Exn)
-    (h : Running cfg tl β n v) (hf : Failed k cause exc v) (action : SleepDecision) (a sl : Nat) :
+theorem handleSleepDecision_spec (n : Nat) (v : View) (cause : Cause) (exc : Option Exn)
+    (h : Running cfg tl β n v) (hf : Failed cause exc v) (action : SleepDecision) (a sl : Nat) :
     ⦃fun w => ⌜view cfg w = v⌝⦄ handleSleepDecision cfg tl action a sl
-    ⦃post⟨fun r w => ⌜SleepPost cfg tl β k cause exc v action r (view cfg w)⌝,
+    ⦃post⟨fun r w => ⌜SleepPost cfg tl β cause exc v action r (view cfg w)⌝,
           fun e w => ⌜e.isException = true → MidX cfg tl β e (view cfg w)⌝⟩⦄ := by
   have e1 := setStop_spec cfg
   have e2 := fun v k x c => emit_spec cfg v tl .scheduled a sl k x (some .scheduled) c none rfl
@@ -935,15 +940,15 @@ theorem handleSleepDecision_spec (n : Nat) (v : View) (k : EClass) (cause : Caus
     | exact ⟨hf.push _ _, h.failSync hf.syncE .scheduled a sl .scheduled (by simp) (by simp) (by simp)⟩
     | skip)
   
-theorem sleepAction_spec (n : Nat) (v : View) (k : EClass) (cause : Cause) (exc : Option Exn)
-    (h : Running cfg tl β n v) (hf : Failed k cause exc v) (a sl : Nat) (ctx : BackoffCtx) :
+theorem sleepAction_spec (n : Nat) (v : View) (cause : Cause) (exc : Option Exn)
+    (h : Running cfg tl β n v) (hf : Failed cause exc v) (a sl : Nat) (ctx : BackoffCtx) :
     ⦃fun w => ⌜view cfg w = v⌝⦄ sleepAction cfg tl a sl ctx
-    ⦃post⟨fun r w => ⌜SleepPost cfg tl β k cause exc v r r (view cfg w)⌝,
+    ⦃post⟨fun r w => ⌜SleepPost cfg tl β cause exc v r r (view cfg w)⌝,
           fun e w => ⌜e.isException = true → MidX cfg tl β e (view cfg w)⌝⟩⦄ := by
   have e1 := callBeforeSleep_spec cfg
   have e2 := callSleeper_spec cfg
   have e3 := callSleepHandler_spec cfg
-  have e4 := handleSleepDecision_spec cfg tl β n v k cause exc h hf
+  have e4 := handleSleepDecision_spec cfg tl β n v cause exc h hf
   mvcgen [sleepAction, e1, e2, e3, e4]
   all_goals (try clear e1 e2 e3 e4)
   vc_simp [SleepPost]
@@ -953,20 +958,20 @@ theorem sleepAction_spec (n : Nat) (v : View) (k : EClass) (cause : Cause) (exc 
     | skip)
 
 /-- what a failed attempt leaves behind, by the attempt's decision -/
-def After (n : Nat) (k : EClass) (cause : Cause) (exc : Option Exn) (o : AOutcome) (v : View) : Prop :=
-  (o.decision ≠ .aborted → Failed k cause exc v)
+def After (n : Nat) (cause : Cause) (exc : Option Exn) (o : AOutcome) (v : View) : Prop :=
+  (o.decision ≠ .aborted → Failed cause exc v)
   ∧ (o.decision = .retry → Running cfg tl β (n + 1) v)
   ∧ (o.decision = .raise → Done cfg tl β .failure v ∧ o.stop = v.stop)
   ∧ (o.decision = .scheduled → Done cfg tl β .failure v ∧ o.stop = some .scheduled ∧ v.stop = some .scheduled)
   ∧ (o.decision = .aborted → Done cfg tl β .aborted v)
   ∧ o.decision ≠ .success
 
-theorem finalize_fail {n : Nat} {k : EClass} {cause : Cause} {exc : Option Exn} {r : SleepDecision}
+theorem finalize_fail {n : Nat} {cause : Cause} {exc : Option Exn} {r : SleepDecision}
     {v2 v3 : View} {sl : Nat} {ctx : BackoffCtx} (h1 : ¬ r = .defer) (h2 : ¬ r = .abort)
-    (hh : ¬ r = .other ∧ Failed k cause exc v2 ∧ (r = .sleep → v2 = v3))
-    (hp : FailPost cfg tl β n k cause exc (.retry sl ctx) v3) (ev : Event) (a : Nat) (st : StopReason)
+    (hh : ¬ r = .other ∧ Failed cause exc v2 ∧ (r = .sleep → v2 = v3))
+    (hp : FailPost cfg tl β n cause exc (.retry sl ctx) v3) (ev : Event) (a : Nat) (st : StopReason)
     (e1 : ev ≠ .success) (e2 : ev ≠ .aborted) (e3 : ev ≠ .retry) :
-    Failed k cause exc
+    Failed cause exc
       (push cfg tl (ev, a, 0, tagsOf cfg v2.lastClass exc (some st) (some cause)) { v2 with stop := some st }) ∧
     Done cfg tl β .failure
       (push cfg tl (ev, a, 0, tagsOf cfg v2.lastClass exc (some st) (some cause)) { v2 with stop := some st }) := by
@@ -976,24 +981,24 @@ theorem finalize_fail {n : Nat} {k : EClass} {cause : Cause} {exc : Option Exn} 
   subst hv
   exact ⟨hf.push _ _, (hp.running (by simp)).failParam hf _ _ _ _ e1 e2 e3⟩
 
-theorem finalize_retry {n : Nat} {k : EClass} {cause : Cause} {exc : Option Exn} {r : SleepDecision}
+theorem finalize_retry {n : Nat} {cause : Cause} {exc : Option Exn} {r : SleepDecision}
     {v2 v3 : View} {sl : Nat} {ctx : BackoffCtx} (h1 : ¬ r = .defer) (h2 : ¬ r = .abort)
-    (hh : ¬ r = .other ∧ Failed k cause exc v2 ∧ (r = .sleep → v2 = v3))
-    (hp : FailPost cfg tl β n k cause exc (.retry sl ctx) v3) : Running cfg tl β (n + 1) v2 := by
+    (hh : ¬ r = .other ∧ Failed cause exc v2 ∧ (r = .sleep → v2 = v3))
+    (hp : FailPost cfg tl β n cause exc (.retry sl ctx) v3) : Running cfg tl β (n + 1) v2 := by
   obtain ⟨h3, hf, h4⟩ := hh
   have hs : r = .sleep := by cases r <;> simp_all
   have hv := h4 hs
   subst hv
   exact hp.running (by simp)
 
-theorem failureOutcome_spec (n : Nat) (v : View) (k : EClass) (cause : Cause) (exc : Option Exn) (d : Decision)
-    (hp : FailPost cfg tl β n k cause exc d v) (cls : Option Classification) (res : Option Nat) :
+theorem failureOutcome_spec (n : Nat) (v : View) (cause : Cause) (exc : Option Exn) (d : Decision)
+    (hp : FailPost cfg tl β n cause exc d v) (cls : Option Classification) (res : Option Nat) :
     ⦃fun w => ⌜view cfg w = v⌝⦄ failureOutcome cfg tl (n + 1) d cls exc res (some cause)
-    ⦃post⟨fun o w => ⌜After cfg tl β n k cause exc o (view cfg w)⌝,
+    ⦃post⟨fun o w => ⌜After cfg tl β n cause exc o (view cfg w)⌝,
           fun e w => ⌜e.isException = true → MidX cfg tl β e (view cfg w)⌝⟩⦄ := by
   have e1 := setStop_spec cfg
   have e2 := fun v ev st kk => emit_spec cfg v tl ev (n + 1) 0 kk exc (some st) (some cause) none
-  have e3 := fun (hd : d ≠ .raise) => sleepAction_spec cfg tl β (n + 1) v k cause exc (hp.running hd) hp.failed
+  have e3 := fun (hd : d ≠ .raise) => sleepAction_spec cfg tl β (n + 1) v cause exc (hp.running hd) hp.failed
   mvcgen [failureOutcome, finalizeAttempt, getRS, elapsed, e1, e2, e3]
   all_goals (try clear e1 e2 e3)
   vc_simp [SleepPost, After]
@@ -1050,9 +1055,9 @@ theorem Done.final_abort {v : View} {e : Exn} (h : Done cfg tl β .aborted v) (h
     obtain ⟨h1, h2, h3⟩ := ht
     cases e <;> simp_all [terminalOk, Exn.isAbort])
 
-theorem Done.final_raise {v : View} {e : Exn} {k : EClass} (h : Done cfg tl β .failure v)
-    (hf : Failed k .exception (some e) v) : Final cfg tl β (.raised e) v := by
-  rcases hf with hf | ⟨_, _, _, hl⟩
+theorem Done.final_raise {v : View} {e : Exn} (h : Done cfg tl β .failure v)
+    (hf : Failed .exception (some e) v) : Final cfg tl β (.raised e) v := by
+  rcases hf with hf | ⟨_, _, hl⟩
   · exact Or.inl hf
   · exact h.final (fun t b ht => by
       obtain ⟨h1, h2, h3, h4, h5, h6⟩ := ht
